@@ -61,8 +61,9 @@ impl Prop for C05 {
     }
     fn assumptions(&self) -> Vec<String> {
         vec![
-            "reference model; the statement's 'enclosing scope' is ambiguous between rrss's dynamic chain and a lexical reading: only programs whose meaning is the same under both are judged".into(),
-            "function definitions are top-level; break/continue/return are never placed at top level".into(),
+            "reference model; the statement's 'enclosing scope' is ambiguous between rrss's dynamic chain (names resolved along the chain of active calls) and a lexical reading (a function sees its own scopes and the globals): a program that means the same under both is judged against that meaning, one that does not must behave, as a whole, like one of the two (counted under scope_readings_differ:*)".into(),
+            "one program in twelve is built around that difference: a helper called from the top level and from a function that defines (or takes as a parameter, or assigns) something of the same name as the function the helper calls".into(),
+            "function definitions are top-level except in the visibility programs; break/continue/return are never placed at top level".into(),
         ]
     }
     fn tape_len(&self, _t: Tier) -> usize {
@@ -118,7 +119,7 @@ impl Prop for C05 {
                         l.push("probe_reached_error".into());
                     }
                 }
-                o.labels = l;
+                o.labels.extend(l);
                 o
             }
         }
